@@ -449,14 +449,15 @@ class HTML(XML):
 
 # Tell JSON how to format XML:
 def _json_print_XMLElement(self: JSONFormatter, printer: Printer, node: XMLElement):
+    # The element's parts are copied because they already have a parent (the element itself)
     kvps = [
-        KeyValuePairNode(StringNode('tag'), node.tag),
+        KeyValuePairNode(StringNode('tag'), node.tag.copy()),
     ]
     if len(node.attrib) > 0:
-        kvps.append(KeyValuePairNode(StringNode('attrs'), node.attrib))
+        kvps.append(KeyValuePairNode(StringNode('attrs'), node.attrib.copy()))
     if node.text is not None:
-        kvps.append(KeyValuePairNode(StringNode('text'), node.text))
-    kvps.append(KeyValuePairNode(StringNode('children'), node._children))
+        kvps.append(KeyValuePairNode(StringNode('text'), node.text.copy()))
+    kvps.append(KeyValuePairNode(StringNode('children'), node._children.copy()))
     self.print(printer, DictNode(kvps))
 
 
